@@ -302,7 +302,8 @@ _ADD2 = {
            'visible), consumers that look only after the failure / stop.',
     'C06': ' Fault-free runs with every subset of <=2 late replies; worker '
            'shuffles as environment choices; a killed worker rejoining at any '
-           'later RPC boundary (kill + restart).',
+           'later RPC boundary (kill + restart); registry event sequences with a '
+           'death announcement followed by an alive announcement.',
     'C08': ' Falsy but valid keys (Index(0), 0, (), Key()) in every key position '
            'of every operator; aggregate(fn, input_keys, output_keys) through '
            'three drivers.',
@@ -314,13 +315,16 @@ _ADD2 = {
            'the main table) as operands in every law and in the BFS.',
     'C12': ' Sources of 63-200 elements with failing indices at the 64/16/4/1 '
            'read-window edges.',
-    'C14': ' Stop/start cycles of the server object (1-2 restarts); shutdown of a '
+    'C14': ' Exception classes a transport or client might treat specially '
+           '(TimeoutError and a subclass, StopIteration, RuntimeError, ...).'
+           ' Stop/start cycles of the server object (1-2 restarts); shutdown of a '
            'prefetching server while a request is pending on a slow endless '
            'generator.',
     'C15': ' Shutdown (own request / signal) while a request is pending on a slow '
            'endless generator: answered or dropped loudly, prefetch thread ends.',
     'C16': ' Worker shuffles of the drivers as environment choices (<=2 '
-           'deviations, alone and with one late reply).',
+           'deviations, alone and with one late reply); aggregates in two '
+           'separately named stages on the sharded path.',
     'C17': ' Cache laws over serialised copies of expressions whose arguments are '
            'unhashable and not value-equal across copies.',
     'C18': ' Aliased subtrees (one container reachable through several paths) '
